@@ -463,15 +463,23 @@ fn box_s(b: &(f32, f32, f32, f32, f32)) -> String {
 ///       chosen=<d:tid|d:-,...> anomalies=<text|->
 /// pairs = every (detection, eligible track) the gate lets through, with the integer weight the voting engine sees,
 /// recomputed here from public functions only (Kalman filter API, too_far, calculate_metric_object, calculate_cost).
-fn run_history(mode: &str, thr: f32, min_conf: f32, max_idle: usize, calls: &[Vec<(f32, f32, f32, f32, f32)>]) {
+fn run_history(mode: &str, thr: f32, min_conf: f32, max_idle: usize, pw: f32, vw: f32, calls: &[Vec<(f32, f32, f32, f32, f32)>]) {
     let hist = calls
         .iter()
         .map(|c| if c.is_empty() { "-".to_string() } else { c.iter().map(box_s).collect::<Vec<_>>().join(";") })
         .collect::<Vec<_>>()
         .join("|");
-    println!("e2ehist mode={} thr={} minconf={} maxidle={} calls={}", mode, f32b(thr), f32b(min_conf), max_idle, hist);
+    println!(
+        "e2ehist mode={} thr={} minconf={} maxidle={} pw={} vw={} calls={}",
+        mode,
+        f32b(thr),
+        f32b(min_conf),
+        max_idle,
+        f32b(pw),
+        f32b(vw),
+        hist
+    );
     let method = if mode == "iou" { PositionalMetricType::IoU(thr) } else { PositionalMetricType::Mahalanobis };
-    let (pw, vw) = (1.0 / 20.0, 1.0 / 160.0);
     let thr_used: f32 = if mode == "iou" { thr } else { 1.0 };
     let thrz = (thr_used * F32_U64_MULT) as i64;
     let res = guarded(|| {
@@ -494,11 +502,21 @@ fn run_history(mode: &str, thr: f32, min_conf: f32, max_idle: usize, calls: &[Ve
             let mut elig: Vec<u64> = known.iter().filter(|(_, k)| epoch - k.epoch <= max_idle).map(|(id, _)| *id).collect();
             elig.sort();
             let mut pairs = vec![];
+            // pairs OUT of bounding-circle reach (too_far) which the chi-square gate alone would admit: they must not be
+            // continued ("within bounding-circle reach of the track's last box"); listed so that the oracle can name them
+            let mut farok = vec![];
             for (d, (cb, _)) in cands.iter().enumerate() {
                 let conf = if cb.confidence < min_conf { min_conf } else { cb.confidence };
                 for id in &elig {
                     let k = &known[id];
                     if Universal2DBox::too_far(cb, &k.last) {
+                        if mode != "iou" {
+                            let dist = f.distance(k.state, cb);
+                            let w = Universal2DBoxKalmanFilter::calculate_cost(dist, true) / conf;
+                            if (w * F32_U64_MULT) as i64 >= thrz {
+                                farok.push(format!("{}:{}", d, id));
+                            }
+                        }
                         continue;
                     }
                     let w: Option<f32> = if mode == "iou" {
@@ -545,13 +563,14 @@ fn run_history(mode: &str, thr: f32, min_conf: f32, max_idle: usize, calls: &[Ve
                 known.insert(id, Known { last: pb, epoch, state: st });
             }
             println!(
-                "e2e call={} mode={} thrz={} nd={} elig={} pairs={} chosen={} shadow_bad={} anomalies={}",
+                "e2e call={} mode={} thrz={} nd={} elig={} pairs={} farok={} chosen={} shadow_bad={} anomalies={}",
                 ci,
                 mode,
                 thrz,
                 boxes.len(),
                 if elig.is_empty() { "-".to_string() } else { elig.iter().map(|x| x.to_string()).collect::<Vec<_>>().join(",") },
                 if pairs.is_empty() { "-".to_string() } else { pairs.join(",") },
+                if farok.is_empty() { "-".to_string() } else { farok.join(",") },
                 if chosen.is_empty() { "-".to_string() } else { chosen.join(",") },
                 shadow_bad,
                 if anomalies.is_empty() { "-".to_string() } else { anomalies.join("+") }
@@ -559,7 +578,7 @@ fn run_history(mode: &str, thr: f32, min_conf: f32, max_idle: usize, calls: &[Ve
         }
     });
     if res.is_none() {
-        println!("e2e call=-1 mode={} thrz={} nd=0 elig=- pairs=- chosen=- shadow_bad=0 anomalies=PANIC", mode, thrz);
+        println!("e2e call=-1 mode={} thrz={} nd=0 elig=- pairs=- farok=- chosen=- shadow_bad=0 anomalies=PANIC", mode, thrz);
     }
     println!("e2eend");
 }
@@ -627,6 +646,43 @@ fn gen_history(rng: &mut Rng) -> Vec<Vec<(f32, f32, f32, f32, f32)>> {
     calls
 }
 
+/// objects that jump between frames by 1/4 .. 6 times (r_det + r_track) (equal sizes: 2r per unit), small boxes,
+/// objects far apart from one another; positions on a 1/4-pixel grid
+fn gen_jump_history(rng: &mut Rng) -> Vec<Vec<(f32, f32, f32, f32, f32)>> {
+    let nobj = 1 + rng.below(3) as usize;
+    let frames = 4 + rng.below(7) as usize;
+    let sizes = [4.0f32, 6.0, 10.0, 10.0, 20.0];
+    let factors = [0.25f32, 0.5, 0.9, 1.1, 1.5, 2.0, 3.0, 6.0];
+    let dirs = [(1.0f32, 0.0f32), (0.0, 1.0), (0.75, 0.75), (-1.0, 0.0), (0.75, -0.75)];
+    let mut objs: Vec<(f32, f32, f32, f32)> = vec![]; // x, y, w, h
+    for i in 0..nobj {
+        let w = *rng.pick(&sizes);
+        let h = if rng.chance(1, 3) { *rng.pick(&sizes) } else { w };
+        objs.push((300.0 + 400.0 * i as f32, 300.0 + 150.0 * (i % 2) as f32, w, h));
+    }
+    let mut calls = vec![];
+    for fr in 0..frames {
+        let mut dets = vec![];
+        for o in objs.iter_mut() {
+            if fr > 0 {
+                let reach = (o.2 * o.2 + o.3 * o.3).sqrt(); // r_det + r_track for equal boxes
+                // the first steps are small so that a track with some history exists, then the jumps vary
+                let k = if fr == 1 { 0.25 } else { *rng.pick(&factors) };
+                let (dx, dy) = *rng.pick(&dirs);
+                o.0 += ((dx * k * reach) * 4.0).round() / 4.0;
+                o.1 += ((dy * k * reach) * 4.0).round() / 4.0;
+            }
+            if fr > 0 && rng.chance(1, 15) {
+                continue;
+            }
+            dets.push((o.0, o.1, o.2, o.3, *rng.pick(&[1.0f32, 1.0, 0.9, 0.5])));
+        }
+        rng.shuffle(&mut dets);
+        calls.push(dets);
+    }
+    calls
+}
+
 // ---------------------------------------------------------------------------------------------
 
 fn kv(line: &str) -> HashMap<String, String> {
@@ -663,7 +719,9 @@ fn replay_line(line: &str) {
                     }
                 })
                 .collect();
-            run_history(&m["mode"], fbits(&m["thr"]), fbits(&m["minconf"]), m["maxidle"].parse().unwrap(), &calls);
+            let pw = m.get("pw").map(|x| fbits(x)).unwrap_or(1.0 / 20.0);
+            let vw = m.get("vw").map(|x| fbits(x)).unwrap_or(1.0 / 160.0);
+            run_history(&m["mode"], fbits(&m["thr"]), fbits(&m["minconf"]), m["maxidle"].parse().unwrap(), pw, vw, &calls);
         }
         _ => {}
     }
@@ -764,15 +822,22 @@ fn main() {
             }
         }
         "e2e" => {
+            let pws = [1.0f32 / 20.0, 0.3, 1.0];
+            let vws = [1.0f32 / 160.0, 0.1, 1.0];
             for k in 0..a.n {
-                let calls = gen_history(&mut rng);
                 let max_idle = if rng.chance(1, 12) { 0 } else { rng.range(1, 3) as usize };
                 let min_conf = 0.05f32;
                 if k % 3 == 2 {
-                    run_history("maha", 1.0, min_conf, max_idle, &calls);
+                    // Mahalanobis: default and LOOSE filters (the chi-square gate of a loose filter reaches beyond the
+                    // bounding circles, so that the circle-reach clause of the gate is the one that decides), histories with
+                    // far jumps and small boxes every other time
+                    let (pw, vw) = if (k / 3) % 4 == 0 { (pws[0], vws[0]) } else { (*rng.pick(&pws), *rng.pick(&vws)) };
+                    let calls = if (k / 3) % 2 == 1 { gen_jump_history(&mut rng) } else { gen_history(&mut rng) };
+                    run_history("maha", 1.0, min_conf, max_idle, pw, vw, &calls);
                 } else {
+                    let calls = gen_history(&mut rng);
                     let thr = *rng.pick(&[0.3f32, 0.3, 0.25, 0.5, 0.1]);
-                    run_history("iou", thr, min_conf, max_idle, &calls);
+                    run_history("iou", thr, min_conf, max_idle, 1.0 / 20.0, 1.0 / 160.0, &calls);
                 }
             }
         }
